@@ -160,6 +160,16 @@ theorem C15_unbounded_prealloc_would_panic :
   ⟨reserveC_of_ge (by decide), fun _ h => reserveC_of_ge h, reserveC_min_4096,
     fun x => reserveC_bind_of_ge x (by decide)⟩
 
+/-- **the pre-allocation the model assumes is the one the current source performs**: `Arith.deserPrealloc` is regenerated
+from `src/store.rs` on every run (`tools/gen_arith.py` reads the argument of the `with_capacity…` call in the `size_hint` arm
+of `visit_seq`); the model's `deserialize` requests `min hint 4096`.  If the cap is removed or changed in the source this
+theorem stops checking, and with it the tie between `C15_hint_never_faults` and the code. -/
+theorem C15_prealloc_matches_source (h : Nat) : Arith.deserPrealloc h = min h 4096 := rfl
+
+/-- … and whatever length the input announces, the request the source makes never overflows a capacity -/
+theorem C15_source_prealloc_never_overflows (h : Nat) : reserveC (Arith.deserPrealloc h) = .ok () := by
+  rw [C15_prealloc_matches_source]; exact reserveC_min_4096 h
+
 end PQ
 
 #print axioms PQ.C15_total_pq
@@ -167,3 +177,5 @@ end PQ
 #print axioms PQ.C15_roundtrip
 #print axioms PQ.C15_hint_never_faults
 #print axioms PQ.C15_unbounded_prealloc_would_panic
+#print axioms PQ.C15_prealloc_matches_source
+#print axioms PQ.C15_source_prealloc_never_overflows
